@@ -20,6 +20,11 @@ RULE = ("GEN: TLC (CrashGen.tla) generates client workloads (ingress to a pull r
         "unacknowledged requests all-or-prefix (fan-out) / all-or-nothing (publish), nothing nobody sent, queue opens, restart succeeds, "
         "unsettled pull messages offered again, settled ones never. distinct_nontrivial = validated events.")
 
+# the only unsettled message is leased when the process dies (a quiet queue afterwards)
+LONE = [{"op": "ingress", "route": "pull"}, {"op": "dequeue", "batch": 1}]
+# the queue is one short of queue_limits.max_depth (14, reject) when a three-item publish arrives: it must be refused as a whole
+FULL = [{"op": "ingress", "route": "pull"}] * 13 + [{"op": "publish", "route": "pull", "n": 3}, {"op": "dequeue", "batch": 2}, {"op": "ack_batch"},
+                                                    {"op": "publish", "route": "pull", "n": 3}]
 RE_WORK = re.compile(r'^<<"WORK", "(.*)">>$')
 CANON = [{"op": "ingress", "route": "pull"}, {"op": "ingress", "route": "fan"}, {"op": "publish", "route": "pull", "n": 3}, {"op": "dequeue", "batch": 2},
          {"op": "ack"}, {"op": "nack"}, {"op": "publish", "route": "fan", "n": 3}, {"op": "dequeue", "batch": 2}, {"op": "dead"}, {"op": "ingress", "route": "fan"},
@@ -62,7 +67,7 @@ def run(ctx):
     binp = vf.build_repo_binary(os.path.join(vf.BUILD, "hookaido-verif"))
     rnd = random.Random(ctx.seed)
     nwork, depth, nrand, per_hi = (2, 7, 16, 6) if ctx.quick else (24, 9, 400, 14)
-    works = [CANON] + workloads(ctx, nwork, depth)
+    works = [CANON, LONE, FULL] + workloads(ctx, nwork, depth)
     ctx.sample({"kind": "TLC-generated workload", "ops": works[-1]})
     clean = [{"name": "w%d" % i, "ops": w, "crash": "", "kill_at_ms": 0, "hitlog": True} for i, w in enumerate(works)]
     out0, hitsf, info0 = run_jobs(ctx, binp, clean, "clean", vf.NCPU)
@@ -92,6 +97,11 @@ def run(ctx):
         crash = "" if mode == 0 else "%s:%d" % ("sqlite.checkpoint" if mode == 1 else "sqlite.checkpoint.done", rnd.randint(1, 150))
         jobs.append({"name": "w%d-ckpt%d" % (i, k), "ops": works[i], "crash": crash, "kill_at_ms": rnd.randint(1, 300) if mode == 0 else 0,
                      "hitlog": False, "ckpt_ms": 1, "label": "checkpoint"})
+    # every other run restarts at once and polls before the killed process's leases ran out, then again afterwards
+    for k, j in enumerate(jobs):
+        j["early"] = k % 2 == 1
+    clean_early = [dict(c, name=c["name"] + "-early", early=True, hitlog=False) for c in clean]
+    jobs += clean_early
     ctx.count("crash_jobs", len(jobs))
     out1, _, info1 = run_jobs(ctx, binp, jobs, "crash", vf.NCPU)
     if info1["errors"] > len(jobs) // 10:
